@@ -55,6 +55,13 @@ def gen(run):
                 i = rng.randrange(len(s))
                 s[i:i + 1] = rng.choice([b'_', b'__', b'A', b'-', b'', b'\xff', b'a'])
             valid.append(bytes(s[:rng.choice([36, 37, 40])]))
+    # alphabet clause, exhaustively per byte: every byte value substituted at / inserted before every position of a few valid tags
+    for base in (b'abc', b'_a_b', b'app_def_x9', b'a0_b1_c2_d3', b'z' * 36):
+        for pos in range(len(base) + 1):
+            for v in range(256):
+                if pos < len(base):
+                    valid.append(base[:pos] + bytes([v]) + base[pos + 1:])
+                valid.append((base[:pos] + bytes([v]) + base[pos:])[:40])
     cases = ['v ' + hx(s) for s in valid]
     # registry histories (the Go registry is global and never shrinks: one cumulative history)
     hist = ['r ' + hx(b'_app_def') + ' ' + hx(b'_biz_def')]
